@@ -40,7 +40,7 @@ Failures(r, hasPrev, prev, fn) ==
 \* a row that is not what the generator asked for / a function set that is not the specification's: not a verdict
 RowProblems(r, j) ==
     (IF r.k = j /\ r.k <= GridN /\ r.x = GridX[r.k] THEN {} ELSE {"infra: row does not match the grid"})
-    \cup (IF DOMAIN r.ys = ScalarNames THEN {} ELSE {"infra: registered scalar activations differ from the specification"})
+    \cup (IF ScalarNames \subseteq DOMAIN r.ys THEN {} ELSE {"infra: a scalar activation of the specification is not registered in the code"})
 
 Report(r, prev, fn, why) ==
     [bad |-> why, k |-> r.k, fn |-> fn, x |-> r.x,
@@ -57,6 +57,9 @@ RowFails(j) ==
         rp == RowProblems(r, j)
     IN IF rp # {} THEN { <<j, "", w>> : w \in rp }
        ELSE UNION { { <<j, fn, w>> : w \in Failures(r, j > 1, prev, fn) } : fn \in ScalarNames }
+            \* scalar activations the code registers beyond the specification's table: no closed form is known for them,
+            \* what the statement says of EVERY registered function is still checked - a finite value
+            \cup { <<j, fn, "Finite">> : fn \in { f \in DOMAIN r.ys \ ScalarNames : ~FIsFinite(Float4(r.ys[f])) } }
 ReportOf(f) == Report(Trace[f[1]], IF f[1] > 1 THEN Trace[f[1] - 1] ELSE Trace[f[1]], f[2], f[3])
 
 \* rows are consumed in blocks (keeps a counterexample short); nothing blocks on a failing row
